@@ -274,6 +274,14 @@ func floodGen(v *verifRun) {
 				node.Known[hx(n)] = m
 			}
 		}
+		// the node's own row, as the established sessions have written it: never pruned by anybody's update
+		if len(node.Conns) > 0 && v.rng.Intn(4) != 0 {
+			own := map[string]float64{}
+			for k, c := range node.Conns {
+				own[k] = c
+			}
+			node.Known[hx(self)] = own
+		}
 		var past []floodUpdateArg
 		var steps []floodStepArg
 		nid := 0
